@@ -136,6 +136,17 @@ def read_events(ctx, wev):
         variants = [('as written', text, True), ('CRLF', text.replace('\n', '\r\n'), True),
                     ('surrounded by text', 'Some leading text\nand more\n\n' + text + '\ntrailing words\n', True),
                     ('no final newline', text.rstrip('\n'), True)]
+        # the same block re-wrapped at other legal line widths (RFC 4880 6.3: at most 76 characters), as other implementations write it
+        if expect != 'cleartext':
+            ls = text.split('\n')
+            b0 = ls.index('') + 1
+            b1 = next(j for j in range(b0, len(ls)) if ls[j].startswith('='))
+            body = ''.join(ls[b0:b1])
+            for w in (76, 72, 60, 48, 4) if (not ctx.quick or len(body) > 76) else (76,):
+                wrapped = [body[j:j + w] for j in range(0, len(body), w)]
+                variants.append(('re-wrapped at %d' % w, '\n'.join(ls[:b0] + wrapped + ls[b1:]), True))
+                if w == 76:
+                    variants.append(('re-wrapped at 76 CRLF', '\r\n'.join(ls[:b0] + wrapped + ls[b1:]), True))
         for vname, vtext, must in variants:
             forms = [('str', vtext)]
             if ascii_only:
@@ -144,7 +155,7 @@ def read_events(ctx, wev):
                 out, crcw, payload, hdrs = load(expect, data)
                 r = {'k': 'read', 'text': codepoints(vtext), 'expect': expect, 'must_load': bool(must and ascii_only), 'out': out, 'crcwarned': crcw,
                      'bin': octets(payload) if payload is not None else [], 'label': '%s / %s / %s' % (e['label'], vname, fname)}
-                if hdrs is not None and vname == 'as written' and ascii_only:
+                if hdrs is not None and vname in ('as written', 'CRLF', 'surrounded by text', 're-wrapped at 76 CRLF') and ascii_only:
                     r['headers'] = hdrs
                 ev.append(r)
         # wrong kind: every other loader must refuse this block
